@@ -276,6 +276,12 @@ func judge(t fataler, in judgeInput) string {
 	}
 	// An error was returned.
 	if in.fired {
+		// The decorator documents that an error of the Tree stream itself
+		// (here: only possible for a Tree that is unreadable/corrupted)
+		// takes precedence over whatever failed while visiting it.
+		if len(v.treeBad) > 0 {
+			return "error_cas_failure_and_tree_bad"
+		}
 		if status.Code(in.err) != in.faultCode || !strings.Contains(in.err.Error(), in.faultText) {
 			t.Fatalf("CAS failed a call with %s %q but the caller received %v\n%s", in.faultCode, in.faultText, in.err, in.describe())
 		}
